@@ -213,9 +213,11 @@ func (c srcCase) input() string {
 func runSrc(c srcCase) evid.Outcome {
 	in := c.input()
 	var out evid.Outcome
-	ok, p := evid.WithTimeout(120*time.Second, func() { out = runSrcInner(c, in) })
+	// the budget grows with the input (a 2.4 MB nest needs 13 CPU-seconds here): 120 s plus 30 s per MB
+	budget := 120*time.Second + time.Duration(len(in)/(1<<20))*30*time.Second
+	ok, p := evid.WithTimeout(budget, func() { out = runSrcInner(c, in) })
 	if !ok {
-		return evid.Failf("c10.source-hang", "lexer/parser still running after 120s on a %d-byte input (%s %s depth %d)", len(in), c.Kind, c.Shape, c.Depth)
+		return evid.Failf("c10.source-hang", "lexer/parser still running after %v (CPU, or that much wall clock stretched by machine load) on a %d-byte input (%s %s depth %d)", budget, len(in), c.Kind, c.Shape, c.Depth)
 	}
 	if p != nil {
 		return evid.Failf("c10.source-panic", "%v (%s %s depth %d) input=%q", p, c.Kind, c.Shape, c.Depth, clip(in))
